@@ -901,6 +901,34 @@ def r07_21(run, model):
     run.floor("calls that build a typed function", n, 2)
 
 
+def r07_22(run, model):
+    run.rule("R07.22", "mono's unification compares every component: in each arm of mono::unify that takes the same constructor apart on both "
+                       "sides, every recursive call is made unconditionally and every component bound by the pattern is used - a component "
+                       "that is compared only under a side condition leaves the parameters that occur only there unbound (a generic function "
+                       "whose type parameter appears in its result alone gets no instance) and accepts a mismatch")
+    u = model.fn("unify", MONO)
+    n = 0
+    for m in S.find(u.body, "Match"):
+        for arm in m["arms"]:
+            binds = S.pat_bindings(arm["pat"])
+            calls = [c for c in S.walk(arm["body"]) if c["k"] == "Call" and S.callee_name(c) == "unify"]
+            if not calls or len(binds) < 2:
+                continue
+            n += 1
+            par = S.Parents(arm["body"])
+            cond = [c for c in calls if any(a["k"] in ("If", "Match") for a in par.ancestors(c))]
+            used = S.idents(arm["body"])
+            unused = [b for b in binds if b not in used]
+            pt = S.norm_ws(run.facts.text(MONO, arm["pat"]["sp"]))
+            ctor = re.search(r"Ty::(\w+)", pt)
+            ok = not cond and not unused
+            run.ob("R07.22", f"unify|{ctor.group(1) if ctor else pt[:20]}: every component is unified, unconditionally", ok, site(MONO, (cond[0] if cond else arm)["sp"]),
+                   (f"{len(cond)} recursive call(s) under a condition" if cond else f"components never looked at: {unused}" if unused else f"{len(calls)} recursive call(s), all unconditional"),
+                   witness="fn default_of[T: Default]() -> T called as `let x: int32 = default_of()`: T occurs in the result only, stays unbound, "
+                           "and the generic name survives into the Go output")
+    run.floor("structural arms of mono::unify", n, 6)
+
+
 def r07_15(run, model):
     run.rule("R07.15", "no generic application survives in what is emitted: besides function signatures and bodies, mono collapses the field "
                        "types of the definitions it keeps (non-generic structs and enums are emitted as they stand) - in `mono`, outside "
@@ -943,6 +971,7 @@ def run(run, model):
     run.try_rule(r07_19, model)
     run.try_rule(r07_20, model)
     run.try_rule(r07_21, model)
+    run.try_rule(r07_22, model)
     from rules import c19 as _c19
     run.rule("R07.14", "two instances of a generic enum never share a Go type name for a variant (shared with C19 R19.8: the clash count ranges over the specialised enums that are emitted)")
     run.try_rule(_c19.r19_8, model)
